@@ -134,6 +134,17 @@ func evalBool(v ssa.Value, env map[string]int64) (bool, bool) {
 		}
 	case *ssa.BinOp:
 		if _, isCmp := negOp[x.Op]; isCmp {
+			// `validator(…) == nil` / `!= nil`: evaluate the private validator's own
+			// path conditions (which return is taken) in the caller's terms
+			if x.Op == token.EQL || x.Op == token.NEQ {
+				if c, ok := x.Y.(*ssa.Const); ok && c.Value == nil {
+					if call, ok := x.X.(*ssa.Call); ok {
+						if isNil, known := evalReturnsNil(call, env); known {
+							return isNil == (x.Op == token.EQL), true
+						}
+					}
+				}
+			}
 			a, ok1 := evalInt(x.X, env)
 			b, ok2 := evalInt(x.Y, env)
 			if !ok1 || !ok2 {
@@ -229,4 +240,78 @@ func ComparePred(b *ssa.BasicBlock, domain map[string][]int64, assume []string, 
 	}
 	rec(0)
 	return res
+}
+
+// evalReturnsNil: for a call to a private, side-effect-free validator of the same package
+// (`func (h *connHeader) check(peer uint16) error`), decide under env whether the return
+// that is taken yields nil, by evaluating the path condition of each of its returns with
+// the parameters read as the caller's arguments.
+func evalReturnsNil(call *ssa.Call, env map[string]int64) (bool, bool) {
+	sc := call.Call.StaticCallee()
+	if sc == nil || sc.Blocks == nil || sc.Pkg != call.Parent().Pkg || sc.Signature.Results().Len() != 1 {
+		return false, false
+	}
+	pure := true
+	EachInstr(sc, func(in ssa.Instruction) {
+		switch x := in.(type) {
+		case *ssa.Store:
+			if _, local := x.Addr.(*ssa.Alloc); !local {
+				pure = false
+			}
+		case *ssa.Send, *ssa.Go, *ssa.MapUpdate, *ssa.Select, *ssa.Defer:
+			pure = false
+		case *ssa.Call:
+			if _, isB := x.Call.Value.(*ssa.Builtin); !isB {
+				pure = false
+			}
+		}
+	})
+	if !pure {
+		return false, false
+	}
+	saved := descSubst
+	ns := map[*ssa.Parameter]string{}
+	for k, v := range saved {
+		ns[k] = v
+	}
+	for i, par := range sc.Params {
+		if i < len(call.Call.Args) {
+			ns[par] = Desc(call.Call.Args[i])
+		}
+	}
+	descSubst = ns
+	defer func() { descSubst = saved }()
+	for _, b := range sc.Blocks {
+		ret, ok := b.Instrs[len(b.Instrs)-1].(*ssa.Return)
+		if !ok || len(ret.Results) != 1 {
+			continue
+		}
+		dnf, okp := PathConds(b)
+		if !okp {
+			return false, false
+		}
+		for _, conj := range dnf {
+			all, unknown := true, false
+			for _, l := range conj {
+				v, known := evalLit(l, env, nil)
+				if !known {
+					unknown = true
+					continue
+				}
+				if !v {
+					all = false
+					break
+				}
+			}
+			if !all {
+				continue
+			}
+			if unknown {
+				return false, false
+			}
+			c, isConst := ret.Results[0].(*ssa.Const)
+			return isConst && c.Value == nil, true
+		}
+	}
+	return false, false
 }
